@@ -14,7 +14,10 @@
 package main
 
 import (
+	"bufio"
 	"encoding/json"
+	"fmt"
+	"strings"
 	"os"
 	"path/filepath"
 	"strconv"
@@ -112,6 +115,36 @@ func main() {
 		hists++
 		flush(er)
 		er.Close()
+	case "replay":
+		// spec -> code: replay the steps emitted by GenDatabase.tla (file given as 4th argument)
+		f, err := os.Open(os.Args[4])
+		if err != nil {
+			util.Die("open steps: %v", err)
+		}
+		sc := bufio.NewScanner(f)
+		sc.Buffer(make([]byte, 1<<24), 1<<24)
+		kinds := map[string]bool{}
+		for sc.Scan() {
+			var step map[string]interface{}
+			if json.Unmarshal(sc.Bytes(), &step) != nil {
+				continue
+			}
+			e := mk()
+			e.Trace = nil
+			if diff := dbt.ReplayStep(e, step); diff != "" {
+				kind := "replay"
+				if strings.HasPrefix(diff, "harness:") {
+					kind = "harness"
+				}
+				out.Encode(map[string]interface{}{"kind": kind, "what": diff, "op": step["op"], "a": step["a"], "pre": step["pre"]})
+				findings++
+			}
+			res := step["res"].(map[string]interface{})
+			kinds[fmt.Sprint(step["op"], res["err"], step["ev"])] = true
+			e.Close()
+		}
+		out.Encode(map[string]interface{}{"kind": "summary", "cases": hists, "histories": hists, "findings": findings, "ops": ops, "errors": errs, "distinct": len(kinds)})
+		return
 	case "txn":
 		nh, _ := strconv.Atoi(os.Args[4])
 		nc, _ := strconv.Atoi(os.Args[5])
